@@ -24,6 +24,12 @@ def totals(gram):
 
 
 def check(case):
+    """case: {"bank": [...], "mode": {...}} or {"bank": [...], "modes": [...]} (several modes on one treebank)"""
+    if "modes" in case:
+        multi = False
+        for mode in case["modes"]:
+            multi = check({"bank": case["bank"], "mode": mode}) or multi
+        return multi
     bank = case["bank"]
     gram, lex = {}, {}
     for tree in bank:
@@ -117,16 +123,23 @@ def gen(ctx):
     @st.composite
     def cases(draw):
         bank = draw(treebank(8 if quick else 11, 6))
-        return {"bank": bank, "mode": draw(st.sampled_from(all_modes))}
+        nf = [m for m in all_modes if m.get("nofanout")]
+        plain = [m for m in all_modes if m.get("markov") and not m.get("nofanout")]
+        det = [m for m in all_modes if not m.get("markov")]
+        return {"bank": bank, "modes": [draw(st.sampled_from(det)), draw(st.sampled_from(plain)), draw(st.sampled_from(nf)), draw(st.sampled_from(nf))]}
 
     def body(case):
         multi = check(case)
-        mode = case["mode"]
-        name = mode["type"] + ("+markov" if mode.get("markov") else "") + ("+nofanout" if mode.get("nofanout") else "")
-        ctx.count(key=case, nontrivial=multi, classes=["mode=" + name, "multi-context-rank3" if multi else "plain"])
-        if multi and mode.get("markov"):
-            ctx.sample({"mode": mode, "treebank": [t["root"] for t in case["bank"]]}, cap=1)
-    ctx.hyp(cases(), body, max_examples=1200 if quick else 6000)
+        ref_gram, _ = lcfrs.extract_treebank(case["bank"])
+        strip = lambda vert: tuple(x.rstrip("0123456789") for x in vert)
+        merge = any(len(set(strip(v) for v in ref_gram[f][l])) < len(ref_gram[f][l]) for f in ref_gram for l in ref_gram[f])
+        for mode in case["modes"]:
+            name = mode["type"] + ("+markov" if mode.get("markov") else "") + ("+nofanout" if mode.get("nofanout") else "")
+            ctx.count(key=(case["bank"], mode), nontrivial=multi, classes=["mode=" + name, "multi-context-rank3" if multi else "plain"]
+                      + (["contexts-coincide-after-stripping-fanouts"] if merge and mode.get("nofanout") else []))
+        if multi and merge:
+            ctx.sample({"modes": case["modes"], "treebank": [t["root"] for t in case["bank"]]}, cap=1)
+    ctx.hyp(cases(), body, max_examples=500 if quick else 3000)
 
 
 UNITS = [Unit("conservation", gen, check, shards=(4, 16))]
